@@ -25,8 +25,13 @@ plus two side conditions of the model:
                     only ever stores `_convert(content, …)` / `[_convert(x, …) for x in content]` (which copy),
                     never the content itself.
 
-Anything the matcher does not recognise is reported as `.alias` / `false` (the answer that makes the Lean
-obligation fail), never as a copy.
+Each site is read three-valued: a RECOGNISED deep copy → `.deep`; a RECOGNISED non-copy (the parameter itself, a
+part of it, `v()`) → `.alias`, a recognised one-level copy → `.shallow`; an UNRECOGNISED expression (a helper call,
+`copy.deepcopy(x, memo)`, a JSON round trip …) is decided by a WITNESS PROBE of the real code under test, run in a
+child process (`witness_probe`): several nested witness documents / Constant values; fresh at every depth and source
+unchanged → `.deep`, sharing below the top level → `.shallow`, otherwise (also on any error) → `.alias`.  The
+generated comments say which sites were decided by the probe.  `nestedReadsInput` stays purely syntactic (`false`
+when not recognised).
 """
 import ast
 import os
@@ -115,15 +120,51 @@ def _is_shallow_of_name(e, tree, name):
     return False
 
 
+def _is_part_of_name(e, name):
+    """`x`, `x[...]`, `x.attr`, `x.get(...)` … — (a part of) the object itself: a recognised NON-copy"""
+    while True:
+        if isinstance(e, ast.Name):
+            return e.id == name
+        if isinstance(e, (ast.Subscript, ast.Attribute, ast.Starred)):
+            e = e.value
+        elif isinstance(e, ast.Call) and isinstance(e.func, ast.Attribute) and e.func.attr in READERS:
+            e = e.func.value
+        elif isinstance(e, ast.NamedExpr):
+            e = e.value
+        else:
+            return False
+
+
 def _copy_mode(e, tree, dc, name):
-    """how an expression binds a working dict from `name`: deep / shallow / alias (= anything else)"""
+    """three-valued reading of an expression that binds a working dict from `name`:
+    "deep" (recognised deep copy) / "shallow" (recognised one-level copy) / "alias" (recognised NON-copy: the
+    object itself or a part of it) / None (unrecognised — e.g. a helper call: to be decided by the witness probe)"""
     if e is None:
-        return "alias"
+        return None
     if _is_deepcopy_of_name(e, dc, name):
         return "deep"
     if _is_shallow_of_name(e, tree, name):
         return "shallow"
-    return "alias"
+    if _is_part_of_name(e, name):
+        return "alias"
+    if isinstance(e, (ast.IfExp, ast.BoolOp)):
+        parts = [e.body, e.orelse] if isinstance(e, ast.IfExp) else list(e.values)
+        ms = [_copy_mode(x, tree, dc, name) for x in parts]
+        if "alias" in ms:
+            return "alias"
+        if None in ms:
+            return None
+        return min(ms, key=lambda m: _RANK[m])
+    return None
+
+
+def _src(e):
+    try:
+        t = ast.unparse(e)
+    except Exception:  # pylint: disable=broad-except
+        return "?"
+    t = " ".join(t.split())
+    return t if len(t) <= 80 else t[:77] + "..."
 
 
 _RANK = {"alias": 0, "shallow": 1, "deep": 2}
@@ -200,62 +241,49 @@ def _bindings(fn, name):
     return sorted(out, key=lambda p: p[0])
 
 
-def site_doc(tree, dc):
-    """S1: (mode, line, note)"""
-    fn = _find_fn(tree, "convert_dict")
+def _site_binding(tree, dc, fname, allow_self_convert):
+    """AST reading of S1 / S2: (mode or None, line, note).  None = the matcher does not recognise what it sees
+    (to be decided by the witness probe); "alias" only for a RECOGNISED non-copy."""
+    fn = _find_fn(tree, fname)
     if fn is None or not fn.args.args:
-        return "alias", 0, "convert_dict not found"
+        return "alias", 0, f"{fname} not found"
     p0 = fn.args.args[0].arg
     rets = _returned_names(fn)
     if not rets:
-        return "alias", fn.lineno, "no plain `return <name>`"
-    line = 0
-    worst = None
-    for r in set(rets):
+        return None, fn.lineno, "unrecognised: no plain `return <name>`"
+    worst, line, unknown = None, 0, None
+    for r in sorted(set(rets)):
         if r == p0:
             return "alias", fn.lineno, "returns its parameter"
         bs = _bindings(fn, r)
         if not bs:
-            return "alias", fn.lineno, f"`{r}` never bound"
-        mode = _copy_mode(bs[0][1], tree, dc, p0)
-        if mode == "alias":
-            return "alias", bs[0][0], f"`{r}` is not first bound by a copy of {p0}"
-        line = bs[0][0]
-        for ln, v in bs[1:]:
-            m2 = _copy_mode(v, tree, dc, p0)
-            if m2 == "alias" and not (_is_call_to(v, "_convert") and v.args and isinstance(v.args[0], ast.Name)
-                                      and v.args[0].id == r):
-                return "alias", ln, f"`{r}` re-bound by something else"
-            if m2 != "alias" and _RANK[m2] < _RANK[mode]:
-                mode, line = m2, ln
-        worst = mode if worst is None or _RANK[mode] < _RANK[worst] else worst
-    return worst, line, f"{rets[0]} = {'deepcopy' if worst == 'deep' else 'shallow copy'}({p0})"
+            unknown = unknown or (fn.lineno, f"unrecognised: `{r}` is never bound by a plain assignment")
+            continue
+        for idx, (ln, v) in enumerate(bs):
+            if (allow_self_convert and idx > 0 and _is_call_to(v, "_convert") and v.args
+                    and isinstance(v.args[0], ast.Name) and v.args[0].id == r):
+                continue                                   # `x = _convert(x, …)`: the loop of convert_dict
+            m = _copy_mode(v, tree, dc, p0)
+            if m == "alias":
+                return "alias", ln, f"`{r} = {_src(v)}` is not a copy of {p0}"
+            if m is None:
+                unknown = unknown or (ln, "unrecognised expression `" + (_src(v) if v is not None else "?") + "`")
+                continue
+            if worst is None or _RANK[m] < _RANK[worst]:
+                worst, line = m, ln
+    if unknown is not None:
+        return None, unknown[0], unknown[1]
+    return worst, line, f"{sorted(set(rets))[0]} = {'deepcopy' if worst == 'deep' else 'shallow copy'}({p0})"
+
+
+def site_doc(tree, dc):
+    """S1: (mode or None, line, note)"""
+    return _site_binding(tree, dc, "convert_dict", True)
 
 
 def site_step(tree, dc):
-    """S2: (mode, line, note)"""
-    fn = _find_fn(tree, "_convert")
-    if fn is None or not fn.args.args:
-        return "alias", 0, "_convert not found"
-    p0 = fn.args.args[0].arg
-    rets = _returned_names(fn)
-    if not rets:
-        return "alias", fn.lineno, "no plain `return <name>`"
-    line = 0
-    worst = None
-    for r in set(rets):
-        if r == p0:
-            return "alias", fn.lineno, "returns its parameter"
-        bs = _bindings(fn, r)
-        if not bs:
-            return "alias", fn.lineno, f"`{r}` never bound"
-        for ln, v in bs:
-            m = _copy_mode(v, tree, dc, p0)
-            if m == "alias":
-                return "alias", ln, f"`{r}` bound by something that is not a copy of {p0}"
-            if worst is None or _RANK[m] < _RANK[worst]:
-                worst, line = m, ln
-    return worst, line, f"{rets[0]} = {'deepcopy' if worst == 'deep' else 'shallow copy'}({p0})"
+    """S2: (mode or None, line, note)"""
+    return _site_binding(tree, dc, "_convert", False)
 
 
 def _branches(fn):
@@ -281,23 +309,45 @@ def _stores(body):
 
 
 def site_const(tree, dc):
-    """S3: (mode, line, note)"""
+    """S3: (mode or None, line, note)"""
     fn = _find_fn(tree, "_convert")
     if fn is None:
         return "alias", 0, "_convert not found"
     found = [(t, b) for t, b in _branches(fn) if _is_isinstance_constant(t)]
     if not found:
-        return "alias", fn.lineno, "no `isinstance(v, Constant)` branch"
-    line = 0
-    for _, body in found:
+        return None, fn.lineno, "unrecognised: no `isinstance(v, Constant)` branch"
+    worst, line, unknown = None, 0, None
+    for test, body in found:
+        var = test.args[0].id if isinstance(test.args[0], ast.Name) else None
         st = _stores(body)
         if not st:
-            return "alias", body[0].lineno, "the Constant branch stores nothing recognisable"
+            unknown = unknown or (body[0].lineno, "unrecognised: the Constant branch stores nothing recognisable")
+            continue
         for ln, v in st:
-            if not (_is_deepcopy(v, dc) and isinstance(v.args[0], ast.Call)):
-                return "alias", ln, "a value stored in the Constant branch is not deepcopy(<call>)"
-            line = line or ln
-    return "deep", line, "out[k] = deepcopy(v())"
+            if _is_deepcopy(v, dc) and isinstance(v.args[0], ast.Call):
+                m = "deep"
+            elif (isinstance(v, ast.Call) and not v.keywords and len(v.args) == 1 and isinstance(v.args[0], ast.Call)
+                  and (ast.unparse(v.func) in _shallowcopy_names(tree)
+                       or (isinstance(v.func, ast.Name) and v.func.id in ("dict", "list")))):
+                m = "shallow"
+            elif (isinstance(v, ast.Call) and isinstance(v.func, ast.Attribute) and v.func.attr == "copy"
+                  and not v.args and isinstance(v.func.value, ast.Call)):
+                m = "shallow"
+            elif var is not None and (_is_part_of_name(v, var) or (
+                    isinstance(v, ast.Call) and _is_part_of_name(v.func, var))):
+                m = "alias"                                # `v()`, `v._val`, `v` — the Constant's own value
+            else:
+                m = None
+            if m == "alias":
+                return "alias", ln, f"the Constant branch stores `{_src(v)}`: not a copy"
+            if m is None:
+                unknown = unknown or (ln, f"unrecognised expression `{_src(v)}`")
+                continue
+            if worst is None or _RANK[m] < _RANK[worst]:
+                worst, line = m, ln
+    if unknown is not None:
+        return None, unknown[0], unknown[1]
+    return worst, line, "out[k] = " + ("deepcopy(v())" if worst == "deep" else "shallow copy of v()")
 
 
 def _is_mapper_test(test):
@@ -479,24 +529,200 @@ def doc_writes(tree, writes):
     return [w for w in writes if not (w[0] == "_convert" and first is not None and set(w[4]) <= {first})]
 
 
+_PROBE = r"""
+import sys, os, json, copy
+repo = sys.argv[1]
+sys.path.insert(0, repo)
+RANK = {"alias": 0, "shallow": 1, "deep": 2}
+
+
+def ids(x, acc):
+    if isinstance(x, dict):
+        if id(x) not in acc:
+            acc[id(x)] = True
+            for v in x.values():
+                ids(v, acc)
+    elif isinstance(x, (list, tuple, set, frozenset)):
+        if isinstance(x, (list, set)):
+            if id(x) in acc:
+                return acc
+            acc[id(x)] = True
+        for v in x:
+            ids(v, acc)
+    return acc
+
+
+def relation(result, source):
+    # alias: the very object (or it is embedded in the result); shallow: some container below is shared
+    if result is source:
+        return "alias", "is the very same object"
+    a, b = ids(result, {}), ids(source, {})
+    if id(source) in a:
+        return "alias", "contains the very same object"
+    if set(a) & set(b):
+        return "shallow", "shares containers below the top level"
+    return "deep", "fresh"
+
+
+def worst(cases):
+    # cases: [(witness, mode, what)]
+    w = min(cases, key=lambda c: RANK[c[1]])
+    if w[1] == "deep":
+        return "deep", "fresh and source unchanged on %d witnesses" % len(cases)
+    return w[1], "%s (witness %s)" % (w[2], w[0])
+
+
+def run(f):
+    try:
+        return list(f())
+    except BaseException as ex:   # noqa
+        return ["alias", "probe raised " + type(ex).__name__]
+
+
+def setup():
+    import typedpy
+    here = os.path.realpath(os.path.dirname(typedpy.__file__))
+    if not here.startswith(os.path.realpath(repo).rstrip(os.sep) + os.sep):
+        raise RuntimeError("typedpy imported from " + here)
+    from typedpy.serialization import versioned_mapping as vm
+    from typedpy.commons import Constant
+    from typedpy.serialization.mappers import Deleted
+    return vm, Constant, Deleted
+
+
+def s1():
+    vm, Constant, Deleted = setup()
+    two = lambda: [{"n": "a", "old": Deleted}, {"k": Constant([7, {"z": []}])}]
+    nested = lambda: [{"subs._mapper": {"y": "x", "x": Deleted}, "one._mapper": {"c": Constant({"q": []})}}]
+    wit = [
+        ("latest-version", {"version": 3, "a": [1, {"b": [2, [3]]}], "d": {"x": [4], "y": {}}}, two()),
+        ("two-steps", {"version": 1, "a": [1, {"b": [2]}], "d": {"x": [4]}, "old": [5]}, two()),
+        ("one-step", {"version": 2, "a": [1, {"b": [2]}], "d": {"x": [4]}, "old": [5]}, two()),
+        ("no-version-key", {"a": [[1]], "d": {"x": {"y": []}}}, [{}]),
+        ("no-mappings", {"version": 1, "a": [[1]], "d": {"x": {"y": []}}}, []),
+        ("nested-mapper", {"version": 1, "subs": [{"x": [1]}, {"x": [2]}], "one": {"x": [3]}}, nested()),
+    ]
+    cases = []
+    for name, doc, ms in wit:
+        snap = copy.deepcopy(doc)
+        res = vm.convert_dict(doc, ms)
+        mode, what = relation(res, doc)
+        if doc != snap:
+            mode, what = "alias", "the input document was modified"
+        cases.append((name, mode, "result " + what if mode != "alias" or "input" not in what else what))
+    return worst(cases)
+
+
+def s2():
+    vm, Constant, Deleted = setup()
+    wit = [
+        ("empty-mapping", {"a": [1, {"b": [2]}], "d": {"x": [3]}}, {}),
+        ("const-delete-move", {"a": [1, {"b": [2]}], "d": {"x": [3]}, "old": [4]},
+         {"k": Constant([1]), "old": Deleted, "n": "d"}),
+        ("nested-mapper", {"subs": [{"x": [1]}, {"x": [2]}], "one": {"x": [3]}},
+         {"subs._mapper": {"y": "x", "x": Deleted}, "one._mapper": {"c": Constant({"q": []})}}),
+    ]
+    cases = []
+    for name, doc, m in wit:
+        snap = copy.deepcopy(doc)
+        res = vm._convert(doc, m)
+        mode, what = relation(res, doc)
+        if doc != snap:
+            mode, what = "alias", "the input document was modified"
+        cases.append((name, mode, "result " + what if "input" not in what else what))
+    return worst(cases)
+
+
+def s3():
+    vm, Constant, Deleted = setup()
+    cases = []
+    for vname, mk in (("list", lambda: [1, {"a": []}]), ("dict", lambda: {"p": [1], "q": {"r": []}})):
+        val = mk()
+        snap = copy.deepcopy(val)
+        c = Constant(val)
+        got = [
+            ("last-mapping/" + vname,
+             lambda: vm.convert_dict({"version": 1, "x": 1}, [{"k": c}])["k"]),
+            ("last-of-two/" + vname,
+             lambda: vm.convert_dict({"version": 1, "x": 1}, [{"x": Deleted}, {"k": c}])["k"]),
+            ("_convert/" + vname, lambda: vm._convert({"x": 1}, {"k": c})["k"]),
+            ("nested-dict/" + vname,
+             lambda: vm.convert_dict({"version": 1, "s": {"x": 1}}, [{"s._mapper": {"k": c}}])["s"]["k"]),
+            ("nested-list/" + vname,
+             lambda: vm.convert_dict({"version": 1, "l": [{"x": 1}]}, [{"l._mapper": {"k": c}}])["l"][0]["k"]),
+        ]
+        for name, f in got:
+            r = f()
+            mode, what = relation(r, val)
+            if val != snap or c() is not val:
+                mode, what = "alias", "the Constant's value was modified"
+            elif r != snap:
+                mode, what = "alias", "the stored value differs from the Constant's value"
+            cases.append((name, mode, "stored value " + what if "Constant" not in what else what))
+    return worst(cases)
+
+
+print("C17PROBE " + json.dumps({"doc": run(s1), "step": run(s2), "const": run(s3)}))
+"""
+
+
+def witness_probe():
+    """run the witness probe on the real code under test ($VERIF_REPO) in a child process (fresh interpreter,
+    PYTHONHASHSEED pinned, the repo first on the path).  Never raises: on any failure every site is `.alias`."""
+    import json
+    import subprocess
+    import sys
+    repo = repo_root()
+    fail = lambda why: {k: ["alias", "witness probe failed: " + why] for k in ("doc", "step", "const")}
+    try:
+        env = dict(os.environ)
+        env["PYTHONHASHSEED"] = "0"
+        env["PYTHONDONTWRITEBYTECODE"] = "1"
+        env["PYTHONPATH"] = repo + (os.pathsep + env["PYTHONPATH"] if env.get("PYTHONPATH") else "")
+        r = subprocess.run([sys.executable, "-c", _PROBE, repo], env=env, capture_output=True, text=True,
+                           timeout=120, check=False)
+        for ln in reversed(r.stdout.splitlines()):
+            if ln.startswith("C17PROBE "):
+                data = json.loads(ln[len("C17PROBE "):])
+                out = {}
+                for k in ("doc", "step", "const"):
+                    v = data.get(k)
+                    ok = isinstance(v, list) and len(v) == 2 and v[0] in _RANK and isinstance(v[1], str)
+                    out[k] = v if ok else ["alias", "witness probe failed: malformed answer"]
+                return out
+        return fail("no answer (exit status %s)" % r.returncode)
+    except Exception as ex:  # pylint: disable=broad-except
+        return fail(type(ex).__name__)
+
+
 def read_all():
     tree = _parse()
     dc = _deepcopy_names(tree)
-    return {
-        "deepcopy_names": sorted(dc),
-        "doc": site_doc(tree, dc),
-        "step": site_step(tree, dc),
-        "const": site_const(tree, dc),
-        "writes": (w := param_writes(tree, dc)),
-        "doc_writes": doc_writes(tree, w),
-        "nested": nested_reads_input(tree),
-    }
+    ast_sites = {"doc": site_doc(tree, dc), "step": site_step(tree, dc), "const": site_const(tree, dc)}
+    info = {"deepcopy_names": sorted(dc), "by_probe": []}
+    probe = None
+    for k, (mode, line, note) in ast_sites.items():
+        if mode is None:
+            # the AST matcher does not recognise the site: ask the code itself
+            if probe is None:
+                probe = witness_probe()
+            pmode, pnote = probe[k]
+            info[k] = (pmode, line, f"{note}; witness probe: {pnote}")
+            info["by_probe"].append(k)
+        else:
+            info[k] = (mode, line, note)
+    w = param_writes(tree, dc)
+    info["writes"] = w
+    info["doc_writes"] = doc_writes(tree, w)
+    info["nested"] = nested_reads_input(tree)
+    return info
 
 
 def render(info):
     def site(key, label):
         mode, line, note = info[key]
-        return f"-- {label}: line {line}: {note}  ==> .{mode}"
+        by = " (by probe)" if key in info.get("by_probe", []) else ""
+        return f"-- {label}: line {line}: {note}  ==> .{mode}{by}"
     writes = info["writes"]
     names = []
     for fname, name, *_ in writes:
